@@ -13,7 +13,7 @@ K = lambda name, file, fn: dict(name=name, target=("oxidize-pdf-core/src/" + fil
 
 PROPS = {
     "C01": dict(
-        verus=["tokenizer", "runlength", "gss", "xrefstream", "glyf", "guards", "predictor", "pngrows", "flatten", "bounded"],
+        verus=["tokenizer", "runlength", "gss", "xrefstream", "glyf", "guards", "predictor", "pngrows", "flatten", "bounded", "asciihex", "ascii85"],
         standins=["a85hex"],
         kani=[K("c01_hex_digit_value", "parser/filters.rs", "hex_digit_value")],
         level_text="panic-freedom (index, slice range, overflow, division), termination and output bounds proved per listed function for all inputs; the whole-program 'never crashes' claim is NOT made",
@@ -107,13 +107,13 @@ PROPS = {
         not_decided="CMap tokenizer/parser, bfrange array form, code-space rejection, ToUnicode builder round trip",
     ),
     "C07": dict(
-        verus=["runlength", "pngrows", "predictor", "bounded"],
+        verus=["runlength", "pngrows", "predictor", "bounded", "asciihex", "ascii85"],
         standins=["a85hex-roundtrip"],
         kani=[K("c07_paeth_predictor_png_spec", "parser/filters.rs", "paeth_predictor")],
         not_decided="LZW, CCITT, Flate (dependency), ASCIIHex/ASCII85 (iterator adapters; outside Verus), PNG/TIFF predictors pending",
     ),
     "C08": dict(
-        verus=["runlength", "bounded"],
+        verus=["runlength", "bounded", "streamlimit", "asciihex", "ascii85"],
         standins=["a85hex"],
         not_decided="Flate/LZW bounded paths; ASCIIHex/ASCII85 limits; decode_stream_with_limit glue pending",
     ),
